@@ -13,14 +13,16 @@ open SkNet SkNet.LinOp
 def rowAll (a : Mat) (p : Nat → Bool) : Bool := (List.range a.nRow).all p
 def colAll (a : Mat) (p : Nat → Bool) : Bool := (List.range a.nCol).all p
 
-/-- rows of `out` are the rows of `a` divided by their 1-norm; null rows stay null -/
+/-- rows of `out` are the rows of `a` divided by their 1-norm and have 1-norm 1, whatever the magnitude of the row
+(a row of total weight 1e-9 is not a null row); null rows stay null -/
 def NormalizeSpec1 (tol : Rat) (a out : Mat) : Bool :=
   a.nRow == out.nRow && a.nCol == out.nCol &&
   rowAll a fun i =>
     let s := sumTo a.nCol fun j => rabs (a.get i j)
     let sc := 1 + s
     if s = 0 then colAll a fun j => out.get i j == 0
-    else colAll a fun j => close tol sc (out.get i j * s) (a.get i j)
+    else close tol 1 (sumTo a.nCol fun j => rabs (out.get i j)) 1 &&
+      colAll a fun j => close tol sc (out.get i j * s) (a.get i j)
 
 /-- rows of `out` are non-negative multiples of the rows of `a` with unit 2-norm; null rows stay null -/
 def NormalizeSpec2 (tol : Rat) (a out : Mat) : Bool :=
